@@ -2,6 +2,7 @@
 import io
 import stat
 
+from gen import basic as G
 from ref7z import coders as RC
 from ref7z import writer as RW
 
@@ -61,6 +62,10 @@ def ref_specs(small=False):
     S["packpos-crc"] = (three, [{"coders": [{"m": RC.M_COPY}], "n": 2}, {"coders": [{"m": RC.M_LZMA2}], "n": 1}], {"header": "raw", "packpos": 9, "pack_crc": True}, None)
     noattr = [dict(D("d"), attr=None), dict(F("d/a.txt", TXT), attr=None), dict(D("e"), attr=None), F("top.bin", BIN)]
     S["noattr-dirs"] = (noattr, [{"coders": [{"m": RC.M_LZMA2}], "n": 2}], {"header": "lzma"}, None)
+    # a member whose CRC-32 is 0: a stored digest that a truthiness test mistakes for "no digest"
+    zero = [F("zero.bin", G.force_crc(TXT_FULL[:96], 0)), F("b.bin", BIN[:30])]
+    S["crc0-copy"] = (zero, [{"coders": [{"m": RC.M_COPY}], "n": 2}], {"header": "raw"}, None)
+    S["crc0-lzma2"] = (zero[:1], [{"coders": [{"m": RC.M_LZMA2}], "n": 1}], {"header": "raw"}, None)
     S["foldercrc"] = (three[:1], [{"coders": [{"m": RC.M_LZMA2}], "n": 1, "fcrc": True}], {"header": "raw"}, None)
     return S
 
